@@ -14,7 +14,7 @@ import (
 func init() {
 	register(&PropSpec{
 		ID:       "C08",
-		Patterns: append(codecPatterns(), "./pkg/network", "./pkg/sync"),
+		Patterns: append(codecPatterns(), "./pkg/network", "./pkg/sync", "./pkg/module/http2/hpack"),
 		Explanation: "Same linear bounds analysis as C07 over every xprotocol decoder and matcher, with the obligations of containment: " +
 			"(B1) no index/slice/binary read on peer bytes outside the guarded length (against len, not cap); (B4) every allocation whose size depends on a wire length field (make([]byte,n), GetIoBuffer(n), NewIoBuffer(n)) is dominated by the proof that n bytes have arrived; " +
 			"(B5) decoders contain no panic call, and every call from a decoder into a parser known to panic on corrupt input (mosn.io/pkg/header.DecodeHeader, dubbo-go-hessian2 Decoder, thrift readers, TarsGo codec readers) happens under a deferred recover that dominates the call (in the function or at every call site of it); the connection's read/write loops run under GoWithRecover whose handler closes the connection; worker-pool tasks run under recover; " +
@@ -28,6 +28,7 @@ func runC08(c *Ctx) {
 	c.Rule("C08.B4", "peer-sized allocations only after the announced bytes have arrived", 6)
 	c.Rule("C08.B5", "no panic in decoders; third-party parsers only under recover; IO loops and workers under recover", 12)
 	c.Rule("C08.B6", "decode failure is local: error reply on the stream or close of the connection", 4)
+	c.Rule("C08.B8", "HPACK decoder: accesses within the received bytes; peer-controlled 64-bit integers bounded before narrowing or sign-changing conversions", 2)
 	c.Rule("C08.B7", "HTTP/2 frame reader: bounded accesses, re-read loops make progress (no unbounded re-parse of one frame), all-or-nothing consumption", 5)
 	c.Assumptions = append(c.Assumptions,
 		"lengths are mathematical integers on a 64-bit int; uint32 wrap-around (frames >= 4 GiB) is outside the model",
@@ -47,6 +48,7 @@ func runC08(c *Ctx) {
 	c08Loops(c)
 	c08Dispatch(c)
 	runC07H2(c, "C08.B1", "C08.B7")
+	runHpackBounds(c, "C08.B8", true)
 }
 
 // B4
